@@ -25,6 +25,7 @@ import GunYu.Proofs.Crash
 import GunYu.Proofs.TxnShape
 import GunYu.Proofs.ResumeDb
 import GunYu.Proofs.Parser
+import GunYu.Proofs.Restart
 
 namespace GunYu.Props.C02
 open GunYu GunYu.Sender GunYu.Target
@@ -455,5 +456,74 @@ example : SMono initS.txn initS.lastOffset exEvs := by
 example : NonNeg exEvs := by simp [NonNeg, exEvs]
 example : exCfg.txnMode = true ∧ exCfg.resume = true := ⟨rfl, rfl⟩
 example : keys (run exCfg initS exEvs).2 = [2060, 2061, 2106, 2107, 2107, 2190, 2219] := by decide +kernel
+
+/-! ### The restart itself (parser / specification level)
+
+The per-run theorems above say what a stored position covers. These two say what
+the RESUMED run does: a fresh parser (it has forgotten the database and any
+filter state) that starts at a stored offset and first re-selects the database
+the position was found in executes exactly the rest of the one-pass
+specification `specStream` of C01 -- nothing skipped, nothing repeated, every
+resumed command in the database the source intended. The cut may be after ANY
+command the parser handed over with its own offset; the offsets the sender
+stores are such offsets or the start offset (`stored_comes_from`; a bracket
+handed over inside a filtered database carries an earlier such offset,
+`Props.C01.bypass_forwards_only_brackets`). That the database a position is
+found in is the connection's database at the cut is `cp_lands_in_current_db` /
+`crash_resume_db`; that link and the choice of the maximum by the real
+GetCheckpoint are exercised on the real code by the resumed-run monitor. -/
+
+theorem restart_completes_spec (c : PCfg) (s0 : PState) (cur0 : Int) (pre : List Raw) (r : Raw)
+    (r2 : List Raw) (i : Item) (o : Int)
+    (hnf : parseFails c s0 (pre ++ [r]) = false)
+    (hemit : (parseStep c (parseState c s0 pre) r).2 = POut.emit i)
+    (hown : passBracket (parseState c s0 pre) r.cmd = false)
+    (hinv0 : s0.currentDB = cur0 ∨ s0.currentDB = -1)
+    (hsel : ∀ x ∈ (pre ++ [r]) ++ r2, x.cmd = bSelect → ∀ a n, x.args = [a] → atoi? a = some n → 0 ≤ n)
+    (hmap : ∀ n : Int, 0 ≤ n → mapDb c n ≠ -1)
+    (hd : c.startDbId = (seqApplied cur0 (itemCmds (parseAll c s0 (pre ++ [r])))).1)
+    (hd0 : 0 ≤ c.startDbId) :
+    specStream c s0.bypass cur0 ((pre ++ [r]) ++ r2) =
+      (seqApplied cur0 (itemCmds (parseAll c s0 (pre ++ [r])))).2 ++
+      (seqApplied 0 (itemCmds (parserItems c o r2))).2 :=
+  Sender.restart_completes_spec c s0 cur0 pre r r2 i o hnf hemit hown hinv0 hsel hmap hd hd0
+
+theorem restart_at_start_is_spec (c : PCfg) (r2 : List Raw) (o : Int)
+    (hsel : ∀ x ∈ r2, x.cmd = bSelect → ∀ a n, x.args = [a] → atoi? a = some n → 0 ≤ n)
+    (hmap : ∀ n : Int, 0 ≤ n → mapDb c n ≠ -1) (hd0 : 0 ≤ c.startDbId) :
+    (seqApplied 0 (itemCmds (parserItems c o r2))).2 = specStream c false c.startDbId r2 :=
+  Sender.restart_at_start_is_spec c r2 o hsel hmap hd0
+
+/-- a command handed over with its own offset leaves the parser outside a filtered
+    database: every offset the sender can store is a safe place to resume without
+    any filter state -/
+theorem stored_offsets_are_unbypassed (c : PCfg) (s : PState) (r : Raw) (i : Item)
+    (h : (parseStep c s r).2 = POut.emit i) (hown : passBracket s r.cmd = false) :
+    (parseStep c s r).1.bypass = false :=
+  emit_own_offset_unbypassed c s r i h hown
+
+/-! Non-vacuity: db 1 filtered, db 2 mapped to 5. Cut after `set a 1` (offset 50,
+    connection in db 5), resume with startDbId = 5: the transaction that wanders
+    through the filtered database, and the rest, are executed by the resumed run. -/
+def rsPc : PCfg :=
+  { filterDb := fun d => d == 1, filterCmd := fun _ => false, filterCmdKey := fun _ a => some a,
+    targetDb := -1, dbMap := [(2, 5)], startDbId := 5 }
+def rsPre : List Raw := [ { cmd := bSelect, args := [[50]], off := 23 } ]            -- SELECT 2 (→ 5)
+def rsCut : Raw := { cmd := [115,101,116], args := [[97],[49]], off := 50 }          -- set a 1
+def rsRest : List Raw :=
+  [ { cmd := bSelect, args := [[49]], off := 73 },                                   -- SELECT 1 (filtered)
+    { cmd := bMulti, args := [], off := 88 },
+    { cmd := [115,101,116], args := [[120],[50]], off := 115 },                      -- set x 2 (bypassed)
+    { cmd := bSelect, args := [[50]], off := 138 },                                  -- SELECT 2 (→ 5)
+    { cmd := [100,101,108], args := [[98]], off := 160 },                            -- del b
+    { cmd := bExec, args := [], off := 174 } ]
+example : parseFails rsPc {} (rsPre ++ [rsCut]) = false := by decide +kernel
+example : (parseStep rsPc (parseState rsPc {} rsPre) rsCut).2 =
+    POut.emit { cmd := [115,101,116], args := [[97],[49]], offset := 50, db := 5 } := by decide +kernel
+example : passBracket (parseState rsPc {} rsPre) rsCut.cmd = false := by decide +kernel
+example : rsPc.startDbId = (seqApplied 0 (itemCmds (parseAll rsPc {} (rsPre ++ [rsCut])))).1 := by
+  decide +kernel
+example : (seqApplied 0 (itemCmds (parserItems rsPc 50 rsRest))).2 =
+    [ { db := 5, name := [100,101,108], args := [[98]] } ] := by decide +kernel
 
 end GunYu.Props.C02
